@@ -212,6 +212,12 @@ def run(ctx, only_cases=None):
     consts = bounds(ctx)
     fut = {}
     t = time.time()
+    ctx.assumptions += [
+        "TLC, the Json community module and the Go driver (concatenates source fragments, BuildTemplate, Run, logs bytes) are trusted",
+        "the verdict is relational on real outputs; the reference/implementation-shaped outputs are compared with them as diagnostics only",
+        "the Markdown converter is a fixture that brackets its input ([md: ... :md]); CommonMark conversion itself is C26/C29's business",
+        "hand-expanded forms declare macros with the explicit result type of the file they came from",
+    ]
     if only_cases is None:
         drv = pool.submit(ctx.build_driver, "c16")
         fut["theorems"] = pool.submit(mc_theorems, ctx, consts)
